@@ -30,7 +30,7 @@ def zoo():
     out['ortho'] = (crystal.Crystal(np.diag([1., 1.1, 1.25]), [np.zeros(3)], chemistry=['A']), 0, 1.15)
     # two-site orthorhombic cell, sites on a two-fold axis only (point group 2 at the sites -> 1-d vector basis)
     out['mono-2site'] = (crystal.Crystal(np.array([[1., 0., .2], [0., .95, 0.], [0., 0., 1.3]]),
-                                         [np.zeros(3), np.array([.5, .37, .5])], chemistry=['A']), 0, 1.0)
+                                         [np.zeros(3), np.array([.5, .37, .5])], chemistry=['A']), 0, 0.99)   # not 1.0 = |a1|: borderline cutoff
     return out
 
 
@@ -148,7 +148,7 @@ def vector_star_oracles(ss, vk, tol=1e-8):
                          vi=[list(map(float, v)) for v in vk.vecvec[i]], vj=[list(map(float, v)) for v in vk.vecvec[j]])))
     # equivariance under every op of crys.G
     G, perm = state_action(ss, crys, chem)
-    nbad, first = 0, None
+    nbad, first, worst = 0, None, 0.
     for gi, g in enumerate(G):
         p = perm[gi]
         if any(x is None for x in p):
@@ -161,6 +161,7 @@ def vector_star_oracles(ss, vk, tol=1e-8):
         if dev.max() > tol:
             s, a, i = np.unravel_index(np.argmax(dev), dev.shape)
             nbad += 1
+            worst = max(worst, float(dev.max()))
             if first is None:
                 first = dict(op=gi, rot=np.asarray(g.rot).tolist(), cartrot=R.tolist(), vstar=int(i), state=int(s),
                              state_str=str(ss.states[s]), image_state=int(p[s]),
@@ -175,9 +176,13 @@ def vector_star_oracles(ss, vk, tol=1e-8):
     if nbad:
         s0 = ss.states[vk.vecpos[first['vstar']][0]]
         kind = 'origin' if s0.iszero() else 'pair'
-        out.append(('equivariance:%s:%s' % (kind, stab_kind(vk.vecpos[first['vstar']][0])),
-                    'v(g.s) != R_g v(s) for %d of %d group ops (first: op %d, vector star %d at state %s)'
-                    % (nbad, len(G), first['op'], first['vstar'], first['state_str']), first))
+        first['max_error'] = worst
+        # generate() decides "this reference vector is the invariant one" by |g00 - 1| < 1e-8, which is quadratic in the
+        # misalignment angle: the accepted vector can be off by sqrt(2e-8) = 1.4e-4.  Errors below 2e-4 are that
+        # threshold artefact (signature suffix ':small'), anything larger is a different failure.
+        out.append(('equivariance:%s:%s%s' % (kind, stab_kind(vk.vecpos[first['vstar']][0]), ':small' if worst <= 2e-4 else ''),
+                    'v(g.s) != R_g v(s) for %d of %d group ops, max error %.3g (first: op %d, vector star %d at state %s)'
+                    % (nbad, len(G), worst, first['op'], first['vstar'], first['state_str']), first))
     # completeness: number of vector stars on a star = dim of the invariant space of the stabiliser (character average)
     for si, star in enumerate(ss.stars):
         s0 = star[0]
@@ -212,8 +217,58 @@ def vector_star_oracles(ss, vk, tol=1e-8):
     return out
 
 
+# ---------------------------------------------------------------- rigidly rotated copies
+def rotation(dim, axis, deg):
+    t = np.deg2rad(deg)
+    if dim == 2:
+        return np.array([[np.cos(t), -np.sin(t)], [np.sin(t), np.cos(t)]])
+    a = np.array(axis, dtype=float); a /= np.linalg.norm(a)
+    K = np.array([[0, -a[2], a[1]], [a[2], 0, -a[0]], [-a[1], a[0], 0]])
+    return np.eye(3) + np.sin(t) * K + (1 - np.cos(t)) * np.dot(K, K)
+
+
+def rotated_crystal(crys, Q):
+    from onsager import crystal
+    return crystal.Crystal(np.dot(Q, crys.lattice), crys.basis, chemistry=crys.chemistry)
+
+
+def state_projectors(ss, vk):
+    """[(i, j, dx, P)] with P = sum over the vector stars of v(s) x v(s): the projector onto the space spanned by the
+    vector stars at state s - independent of the choice of basis inside an invariant space, rotation covariant."""
+    dim = ss.crys.dim
+    U = basis_array(vk, ss.Nstates, dim)
+    return [(PS.i, PS.j, np.array(PS.dx), np.einsum('ai,bi->ab', U[s], U[s])) for s, PS in enumerate(ss.states)]
+
+
+def covariance_oracle(base, rot, Q, tol=1e-8):
+    """The vector stars of the rotated crystal must be the rotated images of those of the unrotated one:
+    same number, and per state P_rot(Q dx) = Q P(dx) Q^T."""
+    out = []
+    (ss0, vk0), (ss1, vk1) = base, rot
+    if vk0.Nvstars != vk1.Nvstars or ss0.Nstates != ss1.Nstates:
+        out.append(('rotation:count', 'rotated crystal: %d states / %d vector stars, unrotated: %d / %d'
+                    % (ss1.Nstates, vk1.Nvstars, ss0.Nstates, vk0.Nvstars), {}))
+        return out
+    P0, P1 = state_projectors(ss0, vk0), state_projectors(ss1, vk1)
+    worst, where, unmatched = 0., None, 0
+    for (i, j, dx, P) in P0:
+        qdx = np.dot(Q, dx)
+        m = [P_ for (i_, j_, dx_, P_) in P1 if i_ == i and j_ == j and np.abs(dx_ - qdx).max() < 1e-6]
+        if len(m) != 1:
+            unmatched += 1; continue
+        dev = np.abs(m[0] - np.dot(Q, np.dot(P, Q.T))).max()
+        if dev > worst: worst, where = dev, (i, j, dx.tolist())
+    if unmatched:      # the reduced cells differ (site numbering): nothing to compare, not a failure of the property
+        return out
+    if worst > tol:
+        out.append(('rotation:projector' + (':small' if worst <= 4e-4 else ''),
+                    'span of the vector stars at state (%d,%d,dx=%s) is not the rotated image of the unrotated one: deviation %.3g'
+                    % (where[0], where[1], where[2], worst), dict(state=list(where), deviation=worst)))
+    return out
+
+
 # ---------------------------------------------------------------- (2) direct assembly + projection
-def _cmp(out, sig, what, code, direct, tol, extra=None, osrows=None):
+def _cmp(out, sig, what, code, direct, tol, extra=None, osrows=None, nterms=1):
     """osrows: indices of origin-state vector stars; when every differing entry lies on such a row (diagonal entry
     for a matrix) the signature gets the suffix ':OSvstar'."""
     code, direct = np.asarray(code, dtype=float), np.asarray(direct, dtype=float)
@@ -223,6 +278,9 @@ def _cmp(out, sig, what, code, direct, tol, extra=None, osrows=None):
     if code.size == 0: return
     scale = max(1.0, np.abs(direct).max())
     dev = np.abs(code - direct)
+    # every expansion array goes through zeroclean(threshold=1e-8): entries below 1e-8 are replaced by 0, so an entry may
+    # be off by 1e-8 absolutely (seen on crystals tilted by ~1e-3 deg); a contraction with `nterms` rates <= 2 by nterms*2e-8
+    tol = max(tol, 1.01e-8 * nterms * (2. if nterms > 1 else 1.) / scale)
     if dev.max() > tol * scale:
         idx = np.unravel_index(np.argmax(dev), dev.shape)
         d = dict(index=[int(x) for x in idx], code=float(code[idx]), direct=float(direct[idx]), maxdev=float(dev.max()),
@@ -281,7 +339,7 @@ def projection_oracles(c, nrng, tol=1e-10):
             else: Gm[s, t] = val[k]
     if missing:
         out.append(('GF:starset-incomplete', '%d state pairs have no Green-function star' % missing, {}))
-    _cmp(out, 'GF:' + tag, 'GFexpansion . GF', np.dot(c.GFexpansion, val), proj(Gm), tol)
+    _cmp(out, 'GF:' + tag, 'GFexpansion . GF', np.dot(c.GFexpansion, val), proj(Gm), tol, nterms=gss.Nstars)
 
     # ---- omega1 and omega2 networks
     om0 = nrng.uniform(.5, 2., n0)
@@ -343,20 +401,20 @@ def projection_oracles(c, nrng, tol=1e-10):
                 D[IS] -= e; b[IS] += e * dx
         code = np.dot(exp1, om) + np.diag([sum(esc1[i, k] * esc[k].get(vstar2kin[i], 0.) for k in range(nk)) for i in range(nv)])
         _cmp(out, '%s:ratematrix:%s' % (label, tag), label + ' rate matrix for random class rates (off-diagonal + escape)',
-             code, proj(W + sp.diags(D)), tol)
+             code, proj(W + sp.diags(D)), tol, nterms=2 * nk + 1)
         W0 = sum((om0[t] * A0[t] for t in range(n0)), sp.csr_matrix((ns, ns)))
         D0 = -np.einsum('ks,ks->s', deg0, esc0[:, wyck_vac])
         code = np.dot(exp0, om0) + np.diag([np.dot(esc0arr[i, :], esc0[:, c.kin2vacancy[vstar2kin[i]]]) for i in range(nv)])
         _cmp(out, '%s:rate0matrix:%s' % (label, tag), label + ' omega0 reference rate matrix for random rates',
-             code, proj(W0 + sp.diags(D0)), tol, osrows=osrows)
+             code, proj(W0 + sp.diags(D0)), tol, osrows=osrows, nterms=2 * n0 + 1)
         bcode = np.array([sum(b1arr[i, k] * esc[k].get(vstar2kin[i], 0.) for k in range(nk)) for i in range(nv)])
         bdir = b.copy()
-        _cmp(out, '%s:biasvector:%s' % (label, tag), label + ' bias vector for random escape rates', bcode, projv(bdir), tol)
+        _cmp(out, '%s:biasvector:%s' % (label, tag), label + ' bias vector for random escape rates', bcode, projv(bdir), tol, nterms=nk + 1)
         b0dir = np.einsum('ksa,ks->sa', gb0, esc0[:, wyck_vac])
         b0code = np.array([np.dot(b0arr[i, :], esc0[:, c.kin2vacancy[vstar2kin[i]]]) for i in range(nv)])
         _cmp(out, '%s:bias0vector:%s' % (label, tag), label + ' omega0 reference bias vector for random escape rates',
-             b0code, projv(b0dir), tol)
-        _cmp(out, '%s:bare' % label, label + ' bare diffusivity for random rates', np.dot(D1arr, om), np.einsum('k,kab->ab', om, dd), tol)
+             b0code, projv(b0dir), tol, nterms=n0 + 1)
+        _cmp(out, '%s:bare' % label, label + ' bare diffusivity for random rates', np.dot(D1arr, om), np.einsum('k,kab->ab', om, dd), tol, nterms=nk + 1)
 
     # ---- origin-state bookkeeping
     OSidx = [n for n in range(nv) if states[vk.vecpos[n][0]].iszero()]
